@@ -262,9 +262,7 @@ impl<'de> VariantAccess<'de> for VariantDeserializer {
         V: Visitor<'de>,
     {
         match self.value {
-            Some(ConstValue::List(v)) => {
-                serde::Deserializer::deserialize_any(SeqDeserializer::new(v), visitor)
-            }
+            Some(ConstValue::List(v)) => visit_array(v, visitor),
             Some(other) => Err(serde::de::Error::invalid_type(
                 other.unexpected(),
                 &"tuple variant",
